@@ -42,19 +42,24 @@ def run(ctx, repo, tier):
         res = interp.call_function(gv, [], {}, self_obj=o)
         ctx.instance("COEF")
         ok = False
+        if isinstance(res, ObjV) and res.ext == "ndarray":
+            res = T.ndarray_value(interp, res)
         got = vstr(res)[:200]
+        recognised = False
         lst = res.args[0] if isinstance(res, Term) and res.op == "array" and res.args else res
         if isinstance(lst, ListV) and len(lst.items) == 1 and isinstance(lst.items[0], Rep) and len(lst.items[0].items) == 1 and \
                 isinstance(lst.items[0].items[0], Elem):
             v = lst.items[0].items[0].value
+            recognised = isinstance(v, Num)
             ok = isinstance(v, Num) and v.p == exp and lst.items[0].count == N
         if isinstance(res, Grid) and isinstance(res.elem, Num):
+            recognised = True
             ok = res.elem.p == exp and res.dim_len(0) == N
         r_ = contains_top(res)
         if ok:
             ctx.ok("COEF", f"C15.equalshare.{d}d", f"fewer than four points in {d}D: every cell gets the equal share {txt}, N entries", gv.where, derived=got)
-        elif r_:
-            ctx.inconclusive("COEF", f"C15.equalshare.{d}d", "equal-share estimate not derived", gv.where, witness=r_)
+        elif r_ or not recognised:
+            ctx.inconclusive("COEF", f"C15.equalshare.{d}d", "equal-share estimate not derived", gv.where, witness=r_ or got)
         else:
             ctx.violate("COEF", f"C15.equalshare.{d}d", f"equal-share estimate for {d}D tiny grids is not {txt} per cell (N cells)", gv.where,
                         "np.array([.../self.N_points]*self.N_points)", witness=f"derived {got}")
